@@ -1326,8 +1326,17 @@ class ResilientAgent(Agent):
         else:
             self.logger.info('Reparation: computation %s NOT selected on '
                              '%s', repair_comp.candidate, self.name)
-        # Remove replica: it will be re-replicated by its new host.
-        self.replication_comp.remove_replica(repair_comp.candidate)
+        # Remove replica: it will be re-replicated by its new host (if the
+        # new host's request has been accepted here already, keep that one).
+        candidate = repair_comp.candidate
+        origin, _ = self.replication_comp.hosted_replicas.get(
+            candidate, (None, None))
+        try:
+            new_host = self.discovery.computation_agent(candidate)
+        except UnknownComputation:
+            new_host = None
+        if origin is None or origin != new_host:
+            self.replication_comp.remove_replica(candidate)
 
         if all(c.status == 'finished'
                for c in self._repair_computations.values()):
